@@ -2,8 +2,8 @@ package c04
 
 import (
 	"fmt"
-	"runtime"
 	"math/big"
+	"runtime"
 	"strings"
 	"testing"
 	"time"
@@ -102,6 +102,17 @@ func (b *bpool) sumW() F {
 		s.Add(s, b.weight(d))
 	}
 	return fi(s)
+}
+
+// drained reports whether a reserve or the share supply has reached zero (an accepted operation may take everything out of
+// a tiny pool): the value per share is undefined from then on and the history ends there.
+func (b *bpool) drained() bool {
+	for _, d := range b.denoms {
+		if b.bal(d).Sign() <= 0 {
+			return true
+		}
+	}
+	return b.shares().Sign() <= 0
 }
 
 func (b *bpool) lnV() F {
@@ -219,6 +230,10 @@ func TestPropBalancer(t *testing.T) {
 				} else if b.now.After(b.p.PoolParams.SmoothWeightChangeParams.StartTime) {
 					c.Class("lbp-weights-shifting")
 				}
+			}
+			if b.drained() {
+				c.Class("pool-drained")
+				break
 			}
 			before := b.lnV()
 			S0 := b.shares()
@@ -506,6 +521,10 @@ func TestPropBalancer(t *testing.T) {
 				nt = true
 			}
 			// weighted product per share must not fall beyond the precision
+			if b.drained() {
+				c.Class("pool-drained")
+				break
+			}
 			after := b.lnV()
 			drop := ref.Fsub(before, after)
 			// tau is a relative bound on one quantity; ln(1-x) ~ -x(1+x): allow 1.5x for x < 1/3
